@@ -84,6 +84,7 @@ func initEnv(c *core.Ctx) {
 		panic(err)
 	}
 	H = h
+	migrateVariants(h.DB)
 }
 
 func must(err error) {
@@ -930,6 +931,8 @@ func run(c *core.Ctx) {
 			}
 		}
 	}
+	// the same semantics for every way of declaring the soft-delete field
+	runVariant(c, st, table)
 	// association paths on a fresh graph
 	d := loadAssoc(r)
 	for k := 0; k < 4; k++ {
@@ -956,7 +959,7 @@ var Engine = &core.Engine{
 	ID:    "C08",
 	Level: "exploration",
 	Rule: "twin tables: random live rows (0..8) each with a soft-deleted twin of identical user columns; chains of 0..3 Where/Not/Or units (C02 generator, id-free, leading Or included, hostile renderings in 2 of 3 cases) x 20 read/write paths (Find, inline, First/Last/Take, Count, Pluck, Scan, Rows, FindInBatches, Count-then-Find / Count-then-Pluck on one query value, Update(s), UpdateColumn, Delete + repeated Delete, Unscoped Find/Count/Update/Delete), " +
-		"plus 20 association paths (Joins with a handle of always-true ON conditions mixing Where/Or/Not forms; Preload plain/cond/nested/all/has-one/many2many/unscoped, Joins/InnerJoins belongs-to, Joins has-one, the same joins under Unscoped, Association Find/Count) over random owner graphs whose children all have soft-deleted twins; distinct = (op:form per unit, path) resp. (path, graph sizes); non-trivial = the chain matches at least one live row (so it also matches a twin)",
+		"plus a battery (Find, Count, Unscoped Find, Update, Delete, repeated Delete, Unscoped Delete under 1..2 condition units) on one of six models that declare the soft-delete field differently (pointer field, anonymous embedded struct / pointer struct, embedded with prefix, renamed column, leading column), plus 20 association paths (Joins with a handle of always-true ON conditions mixing Where/Or/Not forms; Preload plain/cond/nested/all/has-one/many2many/unscoped, Joins/InnerJoins belongs-to, Joins has-one, the same joins under Unscoped, Association Find/Count) over random owner graphs whose children all have soft-deleted twins; distinct = (op:form per unit, path) resp. (path, graph sizes); non-trivial = the chain matches at least one live row (so it also matches a twin)",
 	Assumptions: []string{
 		"conditions never mention the primary key, so a twin matches exactly when its live row does",
 		"FindInBatches runs whose cursor does not advance are cut by a logical batch bound and only checked for twin ids (non-termination is C15's subject)",
